@@ -207,3 +207,62 @@ func ZZ_H05c_KAtOnce() {
 	zzvrt.Assert(s1.availablePermits == s2.availablePermits, "bursty: k at once leaves the same state as k singles")
 	zzvrt.Assert(s1.currentPeriod == s2.currentPeriod, "bursty: k at once leaves the same period as k singles")
 }
+
+// H05g: the public permit API is the documented wrapper around the (separately verified) kernel:
+// TryAcquire* = max wait 0 and "true iff no wait", Reserve* = never refused, TryReserve*(m) = refused iff wait > m,
+// AcquirePermitsWithMaxWait = ErrExceeded iff refused. Differential against a twin kernel in the same state.
+func ZZ_H05g_PublicAPI() {
+	bursty := zzvrt.Choose("bursty", 2) == 1
+	sw := &zzStopwatch{}
+	var rl RateLimiter[int]
+	var twin stats
+	if bursty {
+		cfg := zzBurstyCfgs[zzvrt.Choose("cfg", 2)]
+		rl = BurstyBuilder[int](uint(cfg.m), cfg.p).Build()
+		st := rl.(*rateLimiter[int]).stats.(*burstyStats[int])
+		st.stopwatch = sw
+		a := zzvrt.Int("available")
+		zzvrt.Assume(a <= cfg.m)
+		zzvrt.Assume(a >= -64)
+		st.availablePermits = a
+		twin = &burstyStats[int]{config: &config[int]{periodPermits: cfg.m, period: cfg.p}, stopwatch: sw, availablePermits: a}
+	} else {
+		I := zzSmoothIntervals[zzvrt.Choose("interval", 3)]
+		rl = SmoothBuilderWithMaxRate[int](I).Build()
+		st := rl.(*rateLimiter[int]).stats.(*smoothStats[int])
+		st.stopwatch = sw
+		N := zzvrt.Duration("N")
+		zzvrt.Assume(N >= 0)
+		zzvrt.Assume(N < 1<<40)
+		zzvrt.Assume(N%I == 0)
+		st.nextFreePermitTime = N
+		twin = &smoothStats[int]{config: &config[int]{interval: I}, stopwatch: sw, nextFreePermitTime: N}
+	}
+	t := zzvrt.Int64("t")
+	zzvrt.Assume(t >= 0)
+	zzvrt.Assume(t < 1<<40)
+	sw.t = time.Duration(t)
+	k := zzvrt.Uint("k")
+	zzvrt.Assume(k >= 1)
+	zzvrt.Assume(k <= 8)
+	m := zzvrt.Duration("maxWait")
+	zzvrt.Assume(m >= 0)
+	zzvrt.Assume(m < 1<<40)
+	switch zzvrt.Choose("api", 6) {
+	case 0:
+		zzvrt.Assert(rl.TryAcquirePermit() == (twin.acquirePermits(1, 0) == 0), "limiter: TryAcquirePermit succeeds iff a permit is usable now")
+	case 1:
+		zzvrt.Assert(rl.TryAcquirePermits(k) == (twin.acquirePermits(int(k), 0) == 0), "limiter: TryAcquirePermits succeeds iff all permits are usable now")
+	case 2:
+		zzvrt.Assert(rl.ReservePermit() == twin.acquirePermits(1, -1), "limiter: ReservePermit always reserves and returns the wait")
+	case 3:
+		zzvrt.Assert(rl.ReservePermits(k) == twin.acquirePermits(int(k), -1), "limiter: ReservePermits always reserves and returns the wait")
+	case 4:
+		zzvrt.Assert(rl.TryReservePermit(m) == twin.acquirePermits(1, m), "limiter: TryReservePermit refuses iff the wait exceeds the max wait")
+	case 5:
+		zzvrt.Assert(rl.TryReservePermits(k, m) == twin.acquirePermits(int(k), m), "limiter: TryReservePermits refuses iff the wait exceeds the max wait")
+	}
+	// a second, identical probe sees identical state on both sides (refusals cost nothing, grants cost the same)
+	zzvrt.Assert(rl.ReservePermit() == twin.acquirePermits(1, -1), "limiter: public API leaves the limiter in the kernel's state")
+	zzvrt.Reach("public-api-done")
+}
